@@ -2,7 +2,7 @@
 import ast
 
 from ..core import HarnessError
-from ..explore import build, check_step, explore
+from ..explore import build, check_step, explore, diff_obs
 from ..specs import make_spec
 
 
@@ -55,8 +55,13 @@ def run_container_check(ctx, profiles, min_model_states=None):
 def replay(witness, key=None):
     spec = make_spec(witness["spec"], witness["args"])
     hist = tuple(ast.literal_eval(s) for s in witness["hist"])
-    op = ast.literal_eval(witness["op"])
     weighted = witness["weighted"]
+    if witness["op"] is None:
+        d = diff_obs(spec.observe(spec.new(weighted)), spec.observe(spec.facade(spec.model(weighted))))
+        if d is not None:
+            print("   fresh object: %s: implementation %r, reference %r" % d)
+        return d is not None
+    op = ast.literal_eval(witness["op"])
     model = spec.model(weighted)
     for i, o in enumerate(hist):
         model = pick_alt(spec, model, weighted, hist, i)
@@ -78,6 +83,7 @@ def pick_alt(spec, model, weighted, hist, i):
     impl = build(spec, weighted, hist[: i + 1])
     obs = spec.observe(impl)
     for a in alts:
-        if spec.observe(spec.facade(a)) == obs:
+        o = spec.normalize(obs, a) if hasattr(spec, "normalize") else obs
+        if spec.observe(spec.facade(a)) == o:
             return a
     return alts[0]
